@@ -34,7 +34,7 @@ T={
 'C15-r2s1':('C15','ring slot computed in uint32','non power-of-two MaxStreamNum and pool counters past 2^32','MISSED at first; ring histories and a third of the pools now start just below 2^32, capacities include 3/5/6/7 -> FIRED (porcupine: not linearizable)'),
 'C15-r2s2':('C15','reset moves pendingData into recvBuf after taking the unread size','a reply that arrived but was never looked at before PutBack','fired at once (C15 two-flush replies)'),
 'C16-r2s1':('C16','(same edit as C17-r2s1, found independently)','a session dies in the middle of a hot restart','caught by C17 (loss-then-hot-restart); C16 itself does not lose sessions during a restart'),
-'C16-r2s2':('C16','rebuilt session not attached to the manager','loss and rebuild first, hot restart later','fired at once (C16)'),
+'C16-r2s2':('C16','rebuilt session not attached to the manager','loss and rebuild first, hot restart later','fired in the first run only because a session happened to be lost and rebuilt under machine load; MISSED on a quiet machine; a sixth of the C16 cases now lose and rebuild one session before the restart -> FIRED'),
 'C17-r2s1':('C17','"replaced by hot restart" test compares sm.epoch with the pool session\'s epoch','loss, then a hot restart before the rebuild timer fires','MISSED at first; C17 got loss-then-hot-restart scenarios -> FIRED'),
 'C17-r2s2':('C17','SessionManager.Close closes the pools before waiting for the watchers','Close while a rebuild handshake is in flight','MISSED at first; C17 got close-during-rebuild scenarios (watcher parked at the RebuildBefore hook until Close is waiting) -> FIRED'),
 'C18-r2s1':('C18','send loop takes the connection after one notification without re-checking the writing flag','stale notification token + a fast-path writer parked in EAGAIN + a multi-syscall event','fired at once (C18)'),
